@@ -128,6 +128,14 @@ fn check_case(c: &Case, with_file: bool, rec: &Recorder, cn: &mut Counters) {
         cn.inc("file_round_trips");
         let path = format!("/verif/work/c14_{}_{:?}.graphml", std::process::id(), std::thread::current().id()).replace(['(', ')'], "");
         let _ = std::fs::create_dir_all("/verif/work");
+        // the destination already holds a longer document (an earlier export): it must be replaced, not patched
+        let mut big: GS = Graph::new(specs_for(true, false, false, 3));
+        for i in 0..40 {
+            let _ = big.add_edge(Edge::with_weight(format!("previous-export-node-{i}"), format!("previous-export-node-{}", i + 1), i as f64 + 0.5));
+        }
+        if graphml::write_graphml_file(&big, &path).is_err() {
+            cn.inc("file_prepopulation_failed");
+        }
         match guarded(|| graphml::write_graphml_file(&g, &path)) {
             Ok(Ok(())) => {
                 let on_disk = std::fs::read_to_string(&path).unwrap_or_default();
